@@ -65,7 +65,13 @@ def run_case(case):
     t0 = time.time()
     escaped = None
     try:
-        S.run(threaded=True)
+        if case.get('in_except'):
+            try:
+                int('x')
+            except ValueError:
+                S.run(threaded=True)
+        else:
+            S.run(threaded=True)
     except BaseException as e:
         escaped = type(e).__name__
     out['wall'] = round(time.time() - t0 - waited[0], 3)      # time the checker itself held the grader thread is not pedal's
